@@ -74,8 +74,12 @@ fn record(kind: &str, bytes: &[u8], acc: &mut Acc) {
 fn finished_files(tier: Tier) -> Vec<(String, Vec<u8>)> {
     let mut v = Vec::new();
     let mut add = |name: &str, spec: FileSpec| {
-        let (_, bytes) = build_file(&spec).expect("harness: cannot build C13 file");
-        v.push((name.to_string(), bytes));
+        // a file the writer cannot produce is a prerequisite failure (C01/C09's business), not a
+        // verdict about the trailer validation: noted and left out
+        match build_file(&spec) {
+            Ok((_, bytes)) => v.push((name.to_string(), bytes)),
+            Err(e) => println!("NOTE property=C13 prerequisite: the writer produced no \"{name}\" file ({e}); left out"),
+        }
     };
     add("empty", FileSpec::new(FileCfg::plain(), EntrySpec::Uniform { n: 0, klen: 1, vlen: 0, wide: false }));
     add("one", FileSpec::new(FileCfg::plain(), EntrySpec::Uniform { n: 1, klen: 1, vlen: 3, wide: false }));
@@ -127,8 +131,11 @@ pub fn run(tier: Tier) -> i32 {
     // (b) every single-byte corruption of the trailer (22 positions x 255 values) of every file,
     //     plus of a V1 re-trailed file (21 positions)
     let mut with_v1: Vec<Vec<u8>> = files.iter().map(|f| f.1.clone()).collect();
-    with_v1.push(vlib::fmt::retrail_as_v1(&files[1].1).unwrap());
-    with_v1.push(vlib::fmt::retrail_as_v1(&files[0].1).unwrap());
+    for name in ["one", "empty"] {
+        if let Some(b) = files.iter().find(|f| f.0 == name).and_then(|f| vlib::fmt::retrail_as_v1(&f.1).ok()) {
+            with_v1.push(b);
+        }
+    }
     let b = par_for(with_v1.len() * 22 * 255, 1024, &deadline, |i, acc| {
         let (fi, r) = (i / (22 * 255), i % (22 * 255));
         let (pos, delta) = (r / 255, (r % 255) as u8 + 1);
